@@ -92,7 +92,7 @@ func c16Known(kind, name, prev, next string, toks []gen.Tok, idx int) string {
 
 func checkC16(c *Ctx) (string, bool, []string) {
 	r := c.R
-	rule := "(A) 2-5 generated statements joined by ';' with random whitespace, empty statements and optional trailing ';' must parse to exactly those statements (each equal to its stand-alone parse); joined by whitespace only must be rejected. (B)+(C) for one statement per (kind, clause subset) and random payload statements: EVERY whitespace gap x 6 whitespace substitutions x 18 comment insertions (block, starred block, banner and odd-star terminators, empty block, multi-line block, blocks whose text begins with a slash or holds comment openers, dashes or quotes, two adjacent blocks, line, empty line comment, line comments holding a block opener or more dashes, line on its own line, line+CRLF) is enumerated and the AST compared with the baseline. Non-trivial = edited text differs from baseline; distinct by edited text."
+	rule := "(A) 2-5 (one case in forty: 65-700, cycling through 12) generated statements joined by ';' with random whitespace, empty statements and optional trailing ';' must parse to exactly those statements (each equal to its stand-alone parse); joined by whitespace only must be rejected. (B)+(C) for one statement per (kind, clause subset) and random payload statements: EVERY whitespace gap x 6 whitespace substitutions x 18 comment insertions (block, starred block, banner and odd-star terminators, empty block, multi-line block, blocks whose text begins with a slash or holds comment openers, dashes or quotes, two adjacent blocks, line, empty line comment, line comments holding a block opener or more dashes, line on its own line, line+CRLF) is enumerated and the AST compared with the baseline. Non-trivial = edited text differs from baseline; distinct by edited text."
 	assume := []string{"the baseline rendering puts one space into every gap where whitespace is legal", "a comment is inserted only inside existing whitespace, flanked by whitespace"}
 	if c.Replay != nil {
 		local := map[string]int64{}
@@ -163,10 +163,18 @@ func c16Join(c *Ctx, i int, local map[string]int64) {
 	r := c.R
 	rg := mon.NewRng(c.Seed, "c16.join", i)
 	n := rg.Range(2, 5)
+	pool := 1 << 30
+	if i%40 == 7 {
+		// a long query: whatever a parser accumulates per statement, per call
+		// or per token has many statements to accumulate over
+		n = []int{65, 100, 257, 700}[rg.Intn(4)]
+		pool = 12
+		local["join.long-queries"]++
+	}
 	var texts []string
 	var dumps []string
 	for j := 0; j < n; j++ {
-		gc := genCase(c.Seed, "c16.join.part", i*8+j, -1, -1, gen.Opts{MaxDepth: 2}, "random")
+		gc := genCase(c.Seed, "c16.join.part", i*8+j%pool, -1, -1, gen.Opts{MaxDepth: 2}, "random")
 		st, err, pan, _, _ := parseQuery1(gc.Text)
 		if pan || err != nil {
 			local["join.part-not-accepted(skipped)"]++
